@@ -5,6 +5,8 @@ import os
 import random
 import shutil
 import sys
+import shlex
+import getopt
 import tempfile
 from fractions import Fraction
 
@@ -21,6 +23,19 @@ from wordseg.separator import Separator  # noqa: E402
 import c03  # noqa: E402  (sets up the dpseg stand-in environment)
 
 SEEN = {}
+
+
+def _ag_optstring():
+    """the getopt string of the ag program, read from /repo's main.cc on every run"""
+    import re
+    for line in open('/repo/wordseg/algos/ag/src/main.cc', encoding='utf8', errors='replace'):
+        m = re.match(r'\s*while \(\(chr = getopt\(argc, argv, "([^"]+)"\)\)', line)
+        if m:
+            return m.group(1)
+    raise RuntimeError('getopt call not found in main.cc')
+
+
+AG_OPTSTRING = _ag_optstring()
 
 
 def as_kind(text, kind):
@@ -230,6 +245,19 @@ def main():
                 c['impl'] = (lambda out=out: out)
                 ordered.append(c)
         total.extend(ordered)
+    # a training text without any utterance is a training text like any other: the same answer whether it comes as a list,
+    # a tuple, an iterator or a generator (and never the answer for "no training text")
+    for k in range(24 if ck.thorough else 6):
+        tu = gens.random_text(rng, ['a', 'b', 'c'], nutts=rng.randint(2, 5))[0]
+        ti, di = k % 2, k % 3
+        for kind in ('list', 'tuple', 'generator', 'iterator'):
+            c = c09.make_case(None, tu, [], ti, di, 'history-tp-empty-train-' + kind)
+            text = gens.lines(tu)
+            empty = {'list': [], 'tuple': (), 'generator': (l for l in []), 'iterator': iter([])}[kind]
+            out = call_impl(tp.segment, list(text), empty, c09.THR[ti], c09.DEP[di])
+            c['impl'] = (lambda out=out: out)
+            c['oracle'] = (lambda o, text=text, ti=ti, di=di: repeatable(('tp', tuple(text), (), ti, di), o))
+            total.append(c)
     for c in total:
         ck.count('family:' + c['desc']['family'].split('-njobs')[0])
         if c['site'] == 'baseline.segment':
@@ -254,34 +282,47 @@ def main():
     seed_cases = []
     for k in range(300 if ck.thorough else 60):
         s = rng.randint(0, 99999)
-        tmpl = rng.choice(['-r %d', '-n 10 -r %d -x 2', '-E -r%d -R -1', '-R -1 -r  %d', '-d 0 -x 2'])
+        tmpl = rng.choice(['-r %d', '-n 10 -r %d -x 2', '-E -r%d -R -1', '-R -1 -r  %d', '-d 0 -x 2',
+                           # file-valued options whose names contain what looks like -r / -n / -x (with or without digits),
+                           # quoted names with spaces, the seed given twice (the last one counts)
+                           '-G out-r1/g.lt -r %d', '-G /tmp/my-new-x2-dir/g.lt -n 10 -r %d', "-G 'my -r 5 dir/g.lt' -r %d -x 2",
+                           '-F trace-r.txt -d 0', '-A parses-n3.prs -x 2 -r%d', '-G grammar-run.lt -F log-x.txt -n 4',
+                           "-r 3 -G 'a b.lt' -r %d", '-G c17-r1m5te5p/grammar.out -d 100', "-G '/tmp/c17-r1m5 te5p/grammar out.txt' -r %d"])
         args = tmpl % s if '%d' in tmpl else tmpl
         nruns = rng.randint(1, 6)
         rs = rng.randint(0, 10**6)
 
         def impl(args=args, nruns=nruns, rs=rs):
             random.seed(rs)
-            return call_impl(ag._setup_seed, args, nruns)
+            return call_impl(lambda: [shlex.split(a) for a in ag._setup_seed(args, nruns)])
         r = random.Random(rs)
         rnd = [r.randint(0, 2**16) for _ in range(nruns)]
 
         def oracle(out, args=args, nruns=nruns):
             if out[0] != 'ok':
                 return '_setup_seed raised ' + out[1]
-            import re
-            # the seed a run really uses: the LAST -r of its argument string (getopt), glued or not
-            seeds = [int(re.findall(r'\-r *([0-9]+)', a)[-1]) for a in out[1]]
-            if '-r' in args and len(set(seeds)) != nruns:
-                return 'the derived seeds are not distinct: %r' % seeds
-            given = re.findall(r'\-r *([0-9]+)', args)
-            if given and seeds != [int(given[-1]) + i for i in range(nruns)]:
-                return 'the seeds of the runs %r are not derived from the given one (%s + run)' % (seeds, given[-1])
+            # what the program itself reads (getopt with the option string of main.cc): the seed a run really uses is its
+            # LAST -r; every other option and value must be the one given
+            def parse(tokens):
+                opts, rest = getopt.gnu_getopt(list(tokens), AG_OPTSTRING)
+                return [int(v) for o, v in opts if o == '-r'], [(o, v) for o, v in opts if o != '-r'], rest
+            given, others, rest = parse(shlex.split(args))
+            seeds = []
             for a in out[1]:
-                if re.sub(r'\-r *[0-9]+', '', a).split() != re.sub(r'\-r *[0-9]+', '', args).split():
-                    return 'something else than the seed changed: %r vs %r' % (a, args)
+                sa, oa, ra = parse(a)
+                if not sa:
+                    return 'a run has no seed: %r' % (a,)
+                seeds.append(sa[-1])
+                if (oa, ra) != (others, rest):
+                    return 'something else than the seed changed: the program reads %r from %r, %r was given' % (oa, a, args)
+            if given and seeds != [given[-1] + i for i in range(nruns)]:
+                return 'the seeds of the runs %r are not derived from the given one (%s + run)' % (seeds, given[-1])
+            if given and len(set(seeds)) != nruns:
+                return 'the derived seeds are not distinct: %r' % seeds
             return None
-        seed_cases.append(dict(op=1504, arg=[s2j(args), nruns, rnd], site='ag._setup_seed', desc={'args': args, 'nruns': nruns, 'family': 'ag-seeds'},
-                               impl=impl, dec=lambda w: decode_result(w, j2text), oracle=oracle, nontrivial=lambda m: True))
+        seed_cases.append(dict(op=1504, arg=[[s2j(t) for t in shlex.split(args)], nruns, rnd], site='ag._setup_seed',
+                               desc={'args': args, 'nruns': nruns, 'family': 'ag-seeds'},
+                               impl=impl, dec=lambda w: decode_result(w, lambda v: [j2text(t) for t in v]), oracle=oracle, nontrivial=lambda m: True))
     correspond(ck, seed_cases)
     correspond(ck, puddle_frozen_nested_cases(rng, 300 if ck.thorough else 40))
     # AG with a fixed seed, single job, on the program built from the tree: same result on every call
